@@ -950,12 +950,32 @@ func ruleSwitchDispatch(c *Ctx, rule string) {
 		})
 		ast.Inspect(sd.Body, func(nd ast.Node) bool {
 			if lit, ok := nd.(*ast.FuncLit); ok && endVar != nil && lit.Pos() < bodyPos && bodyPos < endPos {
+				// ip := iend is the only assignment to ip, and env.IP = ip
+				var ipObj types.Object
+				nAssign := 0
 				ast.Inspect(lit.Body, func(m ast.Node) bool {
-					if as, ok := m.(*ast.AssignStmt); ok && len(as.Rhs) == 1 && identOf(as.Rhs[0]) != nil && info.Uses[identOf(as.Rhs[0])] == endVar {
-						okHdr = true
+					if as, ok := m.(*ast.AssignStmt); ok && len(as.Lhs) == 1 && len(as.Rhs) == 1 && identOf(as.Lhs[0]) != nil {
+						if identOf(as.Rhs[0]) != nil && info.Uses[identOf(as.Rhs[0])] == endVar && as.Tok == token.DEFINE {
+							ipObj = info.Defs[identOf(as.Lhs[0])]
+						}
 					}
 					return true
 				})
+				setsIP := false
+				ast.Inspect(lit.Body, func(m ast.Node) bool {
+					if as, ok := m.(*ast.AssignStmt); ok && len(as.Lhs) == 1 && len(as.Rhs) == 1 {
+						if id := identOf(as.Lhs[0]); id != nil && ipObj != nil && (info.Defs[id] == ipObj || info.Uses[id] == ipObj) {
+							nAssign++
+						}
+						if _, isIP := fieldSel(info, as.Lhs[0], "IP"); isIP && ipObj != nil && usedObj(info, as.Rhs[0]) == ipObj {
+							setsIP = true
+						}
+					}
+					return true
+				})
+				if ipObj != nil && nAssign == 1 && setsIP {
+					okHdr = true
+				}
 			}
 			return true
 		})
